@@ -40,13 +40,24 @@ let parse_shape = function
   | "b" -> ShBlocking | "a" -> ShAsync | "t" -> ShTry | "ta" -> ShTryAsync
   | s -> raise (Bad ("shape " ^ s))
 
+(* Guard names. The harness numbers guards in the order they are created, the model in the order its steps create
+   them; when steps of other agents are placed before or after a critical section that was interrupted the two orders
+   can differ. Guards are therefore identified by the observation that announces them (same observation, same key),
+   not by their number: [m2i]/[i2m] is the bijection built up that way, labels are translated on the way in,
+   observations on the way out. *)
+let m2i : (int, int) Hashtbl.t = Hashtbl.create 64
+let i2m : (int, int) Hashtbl.t = Hashtbl.create 64
+let gin (s : string) : nat =
+  let i = int_of_string s in
+  match Hashtbl.find_opt i2m i with Some m -> nat_of_int m | None -> nat_of_int (100000 + i)
+
 let parse_label (toks : string list) : label =
   let n s = nat_of_int (int_of_string s) in
   match toks with
   | ["start"; a; "lock"; sh; k; lim] ->
       let l = int_of_string lim in
       LStart (n a, CLock (parse_shape sh, n k, if l = 0 then None else Some (nat_of_int l)))
-  | ["start"; a; "drop"; g] -> LStart (n a, CDrop (n g))
+  | ["start"; a; "drop"; g] -> LStart (n a, CDrop (gin g))
   | ["start"; a; "expire"; d] -> LStart (n a, CExpire (z_of_string d))
   | ["start"; a; "stream"] -> LStart (n a, CStream)
   | ["start"; a; "count"] -> LStart (n a, CCount)
@@ -57,13 +68,13 @@ let parse_label (toks : string list) : label =
   | ["sub"; a; k; o] -> LSub (n a, n k, parse_keys o)
   | ["pollend"; a] -> LPollEnd (n a)
   | ["cancel"; a] -> LCancel (n a)
-  | ["gop"; g; "ins"; v] -> LGuardOp (n g, GInsert (z_of_string v))
-  | ["gop"; g; "rem"] -> LGuardOp (n g, GRemove)
-  | ["gop"; g; "set"; v] -> LGuardOp (n g, GSet (z_of_string v))
-  | ["gop"; g; "tryins"; v] -> LGuardOp (n g, GTryInsert (z_of_string v))
-  | ["gop"; g; "getins"; v] -> LGuardOp (n g, GGetOrInsert (z_of_string v))
-  | ["gop"; g; "read"] -> LGuardOp (n g, GRead)
-  | ["gop"; g; "cpanic"] -> LGuardOp (n g, GClosurePanic)
+  | ["gop"; g; "ins"; v] -> LGuardOp (gin g, GInsert (z_of_string v))
+  | ["gop"; g; "rem"] -> LGuardOp (gin g, GRemove)
+  | ["gop"; g; "set"; v] -> LGuardOp (gin g, GSet (z_of_string v))
+  | ["gop"; g; "tryins"; v] -> LGuardOp (gin g, GTryInsert (z_of_string v))
+  | ["gop"; g; "getins"; v] -> LGuardOp (gin g, GGetOrInsert (z_of_string v))
+  | ["gop"; g; "read"] -> LGuardOp (gin g, GRead)
+  | ["gop"; g; "cpanic"] -> LGuardOp (gin g, GClosurePanic)
   | ["cbret"; a; r; h] ->
       let r = (match r with "ok" -> CbOk | "err" -> CbErr | "panic" -> CbPanic | s -> raise (Bad ("cbres " ^ s))) in
       let h = (match h with "hold" -> true | "table" -> false | s -> raise (Bad ("hold " ^ s))) in
@@ -75,12 +86,18 @@ let parse_label (toks : string list) : label =
 
 let sk k = string_of_int (int_of_nat k)
 let sv = function None -> "-" | Some z -> string_of_z z
-let sgkv l = if l = [] then "-" else String.concat "," (List.map (fun ((g, k), v) -> sk g ^ ":" ^ sk k ^ ":" ^ string_of_z v) l)
+let overlay : (int * int) list ref = ref []     (* candidate bindings of the comparison in progress *)
+let sg g =
+  let g = int_of_nat g in
+  match List.assoc_opt g !overlay with
+  | Some i -> string_of_int i
+  | None -> (match Hashtbl.find_opt m2i g with Some i -> string_of_int i | None -> "m" ^ string_of_int g)
+let sgkv l = if l = [] then "-" else String.concat "," (List.map (fun ((g, k), v) -> sg g ^ ":" ^ sk k ^ ":" ^ string_of_z v) l)
 let skeys l = if l = [] then "-" else String.concat "," (List.map sk l)
 
 let string_of_obs ~sorted = function
   | ONothing -> "-"
-  | OGuard (g, k, v) -> Printf.sprintf "guard %s %s %s" (sk g) (sk k) (sv v)
+  | OGuard (g, k, v) -> Printf.sprintf "guard %s %s %s" (sg g) (sk k) (sv v)
   | OTryFail -> "tryfail"
   | OErr -> "err"
   | OPanicked -> "panicked"
@@ -89,7 +106,7 @@ let string_of_obs ~sorted = function
   | OOffered l -> "offered " ^ sgkv l
   | OExpired l -> "expired " ^ sgkv l
   | OStream ks -> "stream " ^ skeys ks
-  | OItem (g, k, v) -> Printf.sprintf "item %s %s %s" (sk g) (sk k) (string_of_z v)
+  | OItem (g, k, v) -> Printf.sprintf "item %s %s %s" (sg g) (sk k) (string_of_z v)
   | OPending -> "pending"
   | OEnd -> "end"
   | OCount n -> "count " ^ sk n
@@ -115,6 +132,29 @@ let canon_impl_obs (s : string) : string =
       let l = List.sort compare l in
       "consumed " ^ String.concat "," (List.map (fun (k, v) -> string_of_int k ^ ":" ^ v) l)
   | toks -> String.concat " " toks
+
+(* does the model's observation equal the implementation's, up to the names of the guards it announces?  New guards
+   are paired by key; the pairing is kept only if the observations agree. *)
+let obs_matches (o : obs) (impl : string) : bool =
+  let announced = (match o with
+    | OGuard (g, k, _) | OItem (g, k, _) -> [(int_of_nat g, int_of_nat k)]
+    | OOffered l | OExpired l -> List.map (fun ((g, k), _) -> (int_of_nat g, int_of_nat k)) l
+    | _ -> []) in
+  let impl_pairs = (match split_on ' ' impl with
+    | ("guard" | "item") :: g :: k :: _ -> (try [(int_of_string g, int_of_string k)] with _ -> [])
+    | ("offered" | "expired") :: l :: _ when l <> "-" ->
+        List.filter_map (fun x -> match String.split_on_char ':' x with
+          | g :: k :: _ -> (try Some (int_of_string g, int_of_string k) with _ -> None) | _ -> None) (split_on ',' l)
+    | _ -> []) in
+  let cand = List.filter_map (fun (mg, k) ->
+    if Hashtbl.mem m2i mg then None else
+    match List.find_opt (fun (ig, ik) -> ik = k && not (Hashtbl.mem i2m ig)) impl_pairs with
+    | Some (ig, _) -> Some (mg, ig) | None -> None) announced in
+  overlay := cand;
+  let ok = (string_of_obs ~sorted:true o = impl) in
+  overlay := [];
+  if ok then List.iter (fun (mg, ig) -> Hashtbl.replace m2i mg ig; Hashtbl.replace i2m ig mg) cand;
+  ok
 
 type isnap = { ik : int; iv : string; ist : string; il : string; ir : int }
 
@@ -192,6 +232,7 @@ let maxlen = ref 0
 let process_trace (id : string) (backend : string) (lines : (char * string) list) : verdict =
   let lru = backend = "L" in
   let c : cfg = lru in
+  Hashtbl.reset m2i; Hashtbl.reset i2m;
   let st = ref init in
   let idx = ref 0 in
   let result = ref VOk in
@@ -221,6 +262,7 @@ let process_trace (id : string) (backend : string) (lines : (char * string) list
   let mid_scan = ref false in
   let tentative = ref None in
   let deferred = ref [] in
+  let deferred_agents = ref [] in
   let flush_after_obs = ref false in
   let n_deferred_local = ref 0 in
   (try
@@ -252,13 +294,27 @@ let process_trace (id : string) (backend : string) (lines : (char * string) list
            | _ -> ());
           let again = (match !marker, !mid with Some a, Some (a', _) -> a = a' | _ -> false) in
           if again then begin
-            (* the agent parks again inside the same critical section (next iteration of a scan, or the look-up
-               after it): nothing to compare yet *)
+            (* the agent parks again inside the same critical section (next iteration of a scan, the look-up after it,
+               or - with slow_assertions - the checker's own tries before the body): nothing to compare yet *)
             if !marker_site = 5 then (mid_scan := true; incr n_scan_pauses);
-            pending_model_obs := Some `Skip
+            pending_model_obs := Some `Skip;
+            (match !mid with
+             | Some (a, None) when early !marker_site ->
+                 (* it has now reached a point whose effect others can see (key mutex released / waiter gone):
+                    the critical section takes effect here *)
+                 let lab = parse_label (split_on ' ' rest) in
+                 (match step c !st lab with
+                  | ROk (s', o) ->
+                      (match label_aid lab with
+                       | Some x -> bump_t (pc_at !st x ^ sub_name !st lab ^ ">" ^ pc_at s' x ^ "/" ^ obs_name o)
+                       | None -> ());
+                      st := s'; mid := Some (a, Some o); flush_after_obs := true
+                  | RInvalid -> pending_model_obs := Some `Invalid
+                  | RPanic site -> pending_model_obs := Some (`Panic (int_of_nat site)))
+             | _ -> ())
           end else
           (match !mid with
-           | Some (_, Some o) -> pending_model_obs := Some (`Obs o)
+           | Some (_, Some o) -> pending_model_obs := Some (`Obs o); flush_after_obs := true
            | Some (_, None) ->
                flush_after_obs := true;
                let toks = split_on ' ' rest in
@@ -286,7 +342,16 @@ let process_trace (id : string) (backend : string) (lines : (char * string) list
           if !entering && !marker_site = 5 then mid_scan := true;
           if !entering && not (early !marker_site) then pending_model_obs := Some `Late else
           let st_before = !st in
-          if !mid_scan && not !entering then tentative := Some (st_before, rest) else tentative := None;
+          if !mid_scan && not !entering && (match !mid with Some (_, None) -> true | _ -> false)
+          then tentative := Some (st_before, rest) else tentative := None;
+          (* an agent one of whose steps was ordered after the scan: its later steps follow it there *)
+          if !tentative <> None && (match lab with
+               | LSub (x, k, _) ->
+                   (* the per-entry futures of a stream are independent of each other: only the same future, or an
+                      earlier step of the stream as a whole, pulls this one along *)
+                   List.mem (int_of_nat x, Some (int_of_nat k)) !deferred_agents || List.mem (int_of_nat x, None) !deferred_agents
+               | _ -> (match label_aid lab with Some x -> List.exists (fun (a, _) -> a = int_of_nat x) !deferred_agents | None -> false))
+          then pending_model_obs := Some `ForceDefer else
           (match step c !st lab with
            | ROk (s', o) ->
                (match label_aid lab with
@@ -302,16 +367,22 @@ let process_trace (id : string) (backend : string) (lines : (char * string) list
           let impl_hang = String.length impl >= 4 && String.sub impl 0 4 = "HANG" in
           let defer () =
             (match !tentative with
-             | Some (st0, lab) -> st := st0; deferred := (lab, impl) :: !deferred; incr n_deferred_local; incr n_deferred; tentative := None; true
+             | Some (st0, lab) ->
+                 st := st0; deferred := (lab, impl) :: !deferred; incr n_deferred_local; incr n_deferred; tentative := None;
+                 (match parse_label (split_on ' ' lab) with
+                  | LSub (x, k, _) -> deferred_agents := (int_of_nat x, Some (int_of_nat k)) :: !deferred_agents
+                  | l -> (match label_aid l with Some x -> deferred_agents := (int_of_nat x, None) :: !deferred_agents | None -> ()));
+                 true
              | None -> false) in
           (match !pending_model_obs with
            | None -> raise (Bad "o line without l line")
            | Some `Skip ->
                if impl <> "-" then begin
                  result := VMismatch (!idx, "obs", Printf.sprintf "impl=[%s] in the middle of a critical section" impl); raise Exit end
+           | Some `ForceDefer -> ignore (defer ())
            | Some `Invalid when defer () -> ()
            | Some (`Obs o) when not !entering && not (impl_panic || impl_hang) && !tentative <> None
-                                && string_of_obs ~sorted:true o <> impl && defer () -> ()
+                                && not (obs_matches o impl) && defer () -> ()
            | Some `Invalid ->
                result := VMismatch (!idx, "model-invalid", "the model does not allow this label here; impl observed: " ^ impl); raise Exit
            | Some (`Panic site) ->
@@ -332,9 +403,8 @@ let process_trace (id : string) (backend : string) (lines : (char * string) list
            | Some (`Obs o) ->
                if impl_panic || impl_hang then begin
                  result := VMismatch (!idx, "impl-panic", "impl: " ^ impl ^ " model: " ^ string_of_obs ~sorted:true o); raise Exit end;
-               let m = string_of_obs ~sorted:true o in
-               if m <> impl then begin
-                 result := VMismatch (!idx, "obs", Printf.sprintf "impl=[%s] model=[%s]" impl m); raise Exit end);
+               if not (obs_matches o impl) then begin
+                 result := VMismatch (!idx, "obs", Printf.sprintf "impl=[%s] model=[%s]" impl (string_of_obs ~sorted:true o)); raise Exit end);
           pending_model_obs := None;
           tentative := None;
           if !flush_after_obs then begin
@@ -343,7 +413,7 @@ let process_trace (id : string) (backend : string) (lines : (char * string) list
               match step c !st (parse_label (split_on ' ' lab)) with
               | ROk (s', o) ->
                   let m = string_of_obs ~sorted:true o in
-                  if m <> impl then begin
+                  if not (obs_matches o impl) then begin
                     result := VMismatch (!idx, "obs", Printf.sprintf "[%s] ran in the middle of a scan: impl=[%s], model before the scan disagrees and after the scan says [%s]" lab impl m); raise Exit end;
                   st := s'
               | RInvalid ->
@@ -351,7 +421,7 @@ let process_trace (id : string) (backend : string) (lines : (char * string) list
               | RPanic site ->
                   result := VMismatch (!idx, "model-panics", Printf.sprintf "[%s] after a scan: model panics at site %d" lab (int_of_nat site)); raise Exit)
               (List.rev !deferred);
-            deferred := []
+            deferred := []; deferred_agents := []
           end
       | 'b' -> between := !between_new @ !between; between_new := []
       | 's' when !marker <> None -> marker := None   (* no snapshot can be taken while the global lock is held *)
